@@ -834,6 +834,30 @@ import (
 )
 
 // TestVerifParseStandin: signature.Parse (goparsec combinators) is not under contract; bounded check.
+// timedParse: time of one Parse call; when it is over budget the call is repeated twice more and
+// the minimum is taken, so that a descheduled test process is not mistaken for a slow parse.
+func timedParse(sig string, budget time.Duration) time.Duration {
+	best := time.Duration(1 << 62)
+	for try := 0; try < 3; try++ {
+		t0 := time.Now()
+		func() {
+			defer func() {
+				if p := recover(); p != nil {
+					fmt.Fprintf(os.Stdout, "VERIF-STANDIN-FAIL panic on %%q: %%v\n", sig, p)
+				}
+			}()
+			Parse(sig)
+		}()
+		if el := time.Since(t0); el < best {
+			best = el
+		}
+		if best <= budget {
+			break
+		}
+	}
+	return best
+}
+
 func TestVerifParseStandin(t *testing.T) {
 	alphabet := "bcCwWiIlLfdsmovrX[](){}<>,a"
 	maxLen := %d
@@ -863,16 +887,7 @@ func TestVerifParseStandin(t *testing.T) {
 	for _, k := range kinds {
 		for d := 1; d <= maxDepth; d++ {
 			sig := strings.Repeat(k[0], d) + "i" + strings.Repeat(k[1], d)
-			t0 := time.Now()
-			func() {
-				defer func() {
-					if p := recover(); p != nil {
-						fmt.Fprintf(os.Stdout, "VERIF-STANDIN-FAIL panic on %%q: %%v\n", sig, p)
-					}
-				}()
-				Parse(sig)
-			}()
-			el := time.Since(t0)
+			el := timedParse(sig, 200*time.Millisecond+time.Duration(d)*5*time.Millisecond)
 			count++
 			if el > 200*time.Millisecond+time.Duration(d)*5*time.Millisecond {
 				fmt.Fprintf(os.Stdout, "VERIF-STANDIN-FAIL nesting depth %%d of %%q took %%v (budget 200ms+5ms*depth): super-linear\n", d, k[0], el)
@@ -904,16 +919,7 @@ func TestVerifParseStandin(t *testing.T) {
 		for d := 1; d <= maxDepth+8; d++ {
 			for _, tail := range []string{"", "i", "i)", "<a,b"} {
 				sig := strings.Repeat(o, d) + tail
-				t0 := time.Now()
-				func() {
-					defer func() {
-						if p := recover(); p != nil {
-							fmt.Fprintf(os.Stdout, "VERIF-STANDIN-FAIL panic on %%q: %%v\n", sig, p)
-						}
-					}()
-					Parse(sig)
-				}()
-				el := time.Since(t0)
+				el := timedParse(sig, 200*time.Millisecond+time.Duration(d)*5*time.Millisecond)
 				count++
 				if el > 200*time.Millisecond+time.Duration(d)*5*time.Millisecond {
 					fmt.Fprintf(os.Stdout, "VERIF-STANDIN-FAIL malformed nesting depth %%d of %%q (tail %%q) took %%v (budget 200ms+5ms*depth): super-linear\n", d, o, tail, el)
